@@ -2,6 +2,7 @@ SPECIFICATION Spec
 CONSTANTS
   CountGt = FALSE
   MaxLen = 5
+  CheckAll = TRUE
   MaxDepth = 3
 INVARIANT DocumentedDesugaringAgrees
 POSTCONDITION Post
